@@ -55,7 +55,9 @@ impl Mutation {
     pub fn enabled(&self) -> bool {
         match &self.kind {
             MutKind::Mount(..) | MutKind::Umount(..) => false,
-            MutKind::Mkdir(a) => lstat(a).is_none() && std::path::Path::new(a).parent().map(|p| p.is_dir()).unwrap_or(false),
+            // the attacker only ever creates entries in directories that are inside the root *right now* (no symlink on the way):
+            // whatever it creates is then inside by construction, and nothing it does can be mistaken for the library's doing
+            MutKind::Mkdir(a) => lstat(a).is_none() && std::path::Path::new(a).parent().map(|p| lstat(p.to_str().unwrap_or("")).map(|s| s.is_dir()).unwrap_or(false) && std::fs::canonicalize(p).map(|c| c == p).unwrap_or(false)).unwrap_or(false),
             MutKind::Xchg(a, b) => lstat(a).is_some() && lstat(b).is_some(),
             MutKind::Move(a, b) => lstat(a).is_some() && lstat(b).is_none() && std::path::Path::new(b).parent().map(|p| p.is_dir()).unwrap_or(false),
             MutKind::Remove(a) => match lstat(a) { Some(st) => !st.is_dir() || std::fs::read_dir(a).map(|mut d| d.next().is_none()).unwrap_or(false), None => false },
